@@ -4,6 +4,7 @@ import Mathlib.LinearAlgebra.Lagrange
 import Mathlib.Algebra.Polynomial.Div
 import Mathlib.Algebra.Polynomial.FieldDivision
 import Mathlib.Algebra.BigOperators.Group.List.Basic
+import Mathlib.Algebra.Polynomial.Eval.Degree
 /-!
 Helper lemmas for property C08 (`TF/Props/C08.lean`): the model of `TF/Model/PolyInterp.lean` instantiated with
 `FieldOps.ofField K` for an arbitrary field `K`, denoted into `K[X]` by `TF.Model.Poly.denote`.
@@ -1276,5 +1277,420 @@ theorem interpolateFuel_spec (t : Thr) (hT : 2 ≤ t.zf) (cut : Nat) (bev : List
       exact ih d' v' hne' (by omega) hn' hl'
 
 end dc
+
+
+/-! ### cosets: NTT-based evaluation and interpolation, extrapolation -/
+section coset
+
+/-- what C06 proves about `ntt` / `intt` for the root `ω = root n` of the table: the forward transform evaluates at
+    the powers of `ω`; the inverse transform returns the coefficients (length `n`) of the polynomial taking the
+    given values there, provided the `n` powers are pairwise distinct (`ω` primitive) -/
+structure Ext.LawfulNtt (E : Ext K) : Prop where
+  ntt : ∀ (xs : List K) (ω : K), root xs.length = some ω →
+    E.ntt xs = (List.range xs.length).map (fun i => (denote xs).eval (ω ^ i))
+  intt : ∀ (vs : List K) (ω : K), root vs.length = some ω →
+    ((List.range vs.length).map (fun i => ω ^ i)).Nodup →
+    Interpolates ((List.range vs.length).map (fun i => ω ^ i)) vs (denote (E.intt vs))
+
+/-- the coset `offset·⟨ω⟩` in the order the code enumerates it -/
+def cosetDomain (offset ω : K) (n : Nat) : List K := (List.range n).map (fun i => offset * ω ^ i)
+
+theorem geom_eq (g : K) : ∀ (n : Nat) (x0 : K), geom FK x0 g n = (List.range n).map (fun i => x0 * g ^ i) := by
+  intro n
+  induction n with
+  | zero => intro x0; rfl
+  | succ n ih =>
+    intro x0
+    rw [geom, ih, List.range_succ_eq_map]
+    simp only [List.map_cons, pow_zero, mul_one, List.map_map, FieldOps.ofField_mul]
+    congr 1
+    apply List.map_congr_left
+    intro i _
+    simp [pow_succ]; ring
+
+theorem cosetDomain_eq_map (offset ω : K) (n : Nat) :
+    cosetDomain offset ω n = ((List.range n).map (fun i => ω ^ i)).map (fun x => offset * x) := by
+  simp [cosetDomain]
+
+theorem denote_resize (q : List K) (n : Nat) (h : ∀ i, n ≤ i → (denote q).coeff i = 0) :
+    denote (resize FK q n) = denote q := by
+  ext i
+  rw [coeff_denote, coeff_denote, resize]
+  by_cases hi : i < n
+  · by_cases hq : i < q.length
+    · rw [List.getD_eq_getElem?_getD, List.getD_eq_getElem?_getD, List.getElem?_append_left (by simp; omega),
+        List.getElem?_take_of_lt hi]
+    · have h1 : q.getD i 0 = 0 := getD_of_ge _ _ _ (by omega)
+      have hlen : (q.take n).length = q.length := by simp; omega
+      rw [h1, List.getD_eq_getElem?_getD, List.getElem?_append_right (by omega), hlen,
+        List.getElem?_replicate, if_pos (by omega)]
+      rfl
+  · have h0 := h i (by omega)
+    rw [coeff_denote] at h0
+    rw [h0, getD_of_ge]
+    simp; omega
+
+theorem length_resize (q : List K) (n : Nat) : (resize FK q n).length = n := by
+  simp [resize]; omega
+
+variable {E : Ext K} (hN : Ext.LawfulNtt root E)
+include hN
+
+/-- `fast_coset_evaluate`: whatever it returns are the values on `offset·ω^i`, `i < order`, in order -/
+theorem fastCosetEvaluate_sound (p : List K) (offset : K) (order : Nat) (ω : K) (hω : root order = some ω)
+    (out : List K) (h : fastCosetEvaluate FK E p offset order = some out) :
+    out = (cosetDomain offset ω order).map (fun x => (denote p).eval x) := by
+  unfold fastCosetEvaluate at h
+  split at h
+  · simp at h
+  · next hdeg =>
+    have hdeg' : degSucc FK p ≤ order := by simpa using hdeg
+    unfold nttChecked at h
+    split at h
+    · simp only [Option.some.injEq] at h
+      subst h
+      have hl := length_resize root (scale FK p offset) order
+      rw [hN.ntt _ ω (by rw [hl]; exact hω), hl, cosetDomain, List.map_map]
+      apply List.map_congr_left
+      intro i _
+      rw [denote_resize, denote_scale, eval_comp]
+      · simp
+      · intro j hj
+        rw [denote_scale, comp_C_mul_X_coeff, coeff_denote,
+          getD_eq_zero_of_ge root p j (le_trans hdeg' hj), zero_mul]
+    · simp at h
+
+omit hN in
+theorem Interpolates.scale_domain {xs ys : List K} {f : K[X]} (hf : Interpolates xs ys f) (a : K) (ha : a ≠ 0) :
+    Interpolates (xs.map (fun x => a * x)) ys (f.comp (C a⁻¹ * X)) := by
+  refine ⟨?_, ?_⟩
+  · rw [List.length_map, degree_lt_iff_coeff_zero]
+    intro m hm
+    rw [comp_C_mul_X_coeff, (degree_lt_iff_coeff_zero _ _).1 hf.1 m hm, zero_mul]
+  · intro p hp
+    rw [List.zip_map_left, List.mem_map] at hp
+    obtain ⟨q, hq, rfl⟩ := hp
+    simp only [Prod.map_fst, Prod.map_snd, id_eq, eval_comp, eval_mul, eval_C, eval_X]
+    rw [← mul_assoc, inv_mul_cancel₀ ha, one_mul]
+    exact hf.2 q hq
+
+/-- `fast_coset_interpolate`: whatever it returns passes the certificate on the coset (for a primitive `ω`) -/
+theorem fastCosetInterpolate_sound (offset : K) (values : List K) (ω : K) (hω : root values.length = some ω)
+    (hprim : ((List.range values.length).map (fun i => ω ^ i)).Nodup)
+    (f : List K) (h : fastCosetInterpolate FK E offset values = some f) :
+    Interpolates (cosetDomain offset ω values.length) values (denote f) := by
+  unfold fastCosetInterpolate at h
+  obtain ⟨c, hc, h⟩ := Option.bind_eq_some_iff.1 h
+  split at h
+  · simp at h
+  · next hoff =>
+    simp only [Option.pure_def, Option.some.injEq] at h
+    subst h
+    have hoff' : offset ≠ 0 := by simpa using hoff
+    unfold inttChecked at hc
+    split at hc
+    · simp only [Option.some.injEq] at hc
+      subst hc
+      rw [denote_scale, cosetDomain_eq_map]
+      exact (hN.intt values ω hω hprim).scale_domain offset hoff'
+    · simp at hc
+
+
+variable (hE : E.Lawful)
+include hE
+
+omit hN hE in
+theorem cosetDomain_nodup (offset ω : K) (n : Nat) (hoff : offset ≠ 0)
+    (hprim : ((List.range n).map (fun i => ω ^ i)).Nodup) : (cosetDomain offset ω n).Nodup := by
+  rw [cosetDomain_eq_map]
+  exact hprim.map (fun a b hab => mul_left_cancel₀ hoff hab)
+
+omit hN hE in
+theorem length_cosetDomain (offset ω : K) (n : Nat) : (cosetDomain offset ω n).length = n := by
+  simp [cosetDomain]
+
+/-- `naive_coset_extrapolate` (INTT, scale by the inverse offset, bulk evaluation): the values of the coset
+    interpolant at the points -/
+theorem naiveCosetExtrapolate_sound (t : Thr) (offset : K) (codeword points : List K) (ω : K)
+    (hω : root codeword.length = some ω) (hprim : ((List.range codeword.length).map (fun i => ω ^ i)).Nodup)
+    (out : List K) (h : naiveCosetExtrapolate FK E t offset codeword points = some out) :
+    ∃ g : K[X], Interpolates (cosetDomain offset ω codeword.length) codeword g ∧
+      out = points.map (fun x => g.eval x) := by
+  unfold naiveCosetExtrapolate at h
+  obtain ⟨c, hc, h⟩ := Option.bind_eq_some_iff.1 h
+  split at h
+  · simp at h
+  · next hoff =>
+    have hoff' : offset ≠ 0 := by simpa using hoff
+    have hfi : fastCosetInterpolate FK E offset codeword = some (scale FK c ((FK).inv offset)) := by
+      unfold fastCosetInterpolate
+      rw [hc]; simp [hoff]
+    exact ⟨_, fastCosetInterpolate_sound root hN offset codeword ω hω hprim _ hfi,
+      batchEvaluateWith_sound root hE _ _ _ _ _ _ h⟩
+
+omit hN hE in
+theorem fmciPreprocess_modulus (n : Nat) (offset : K) (modulus : List K) (pre : Pre K)
+    (h : fmciPreprocess FK E n offset modulus = some pre) : pre.modulus = modulus ∧ denote modulus ≠ 0 := by
+  unfold fmciPreprocess at h
+  obtain ⟨ω, _, h⟩ := Option.bind_eq_some_iff.1 h
+  simp only at h
+  split_ifs at h with h1 h2 h3 hz
+  simp only [Option.pure_def, Option.some.injEq] at h
+  subst h
+  refine ⟨rfl, ?_⟩
+  intro h0
+  exact hz ((isZero_iff root modulus).2 h0)
+
+omit hN hE in
+theorem reduce_eq (p m : List K) (r : List K) (h : reduce FK E p m = some r) :
+    denote m ≠ 0 ∧ r = E.rem p m := by
+  unfold reduce at h
+  split at h
+  · simp at h
+  · next hz =>
+    simp only [Option.some.injEq] at h
+    exact ⟨fun h0 => hz ((isZero_iff root m).2 h0), h.symm⟩
+
+/-- `fast_modular_coset_interpolate…with_zerofiers_and_ntt_friendly_multiple`, Lagrange arm and INTT-then-reduce arm
+    (codeword length up to the INTT cut-off, **for every value of both cut-offs**): the coset interpolant modulo
+    the modulus -/
+theorem fmciWithFuel_sound_small (t : Thr) (hT : 2 ≤ t.zf) (fuel : Nat) (values : List K) (offset : K)
+    (modulus : List K) (pre : Pre K)
+    (hpre : pre.modulus = modulus) (hoff : offset ≠ 0) (hsmall : values.length ≤ t.intt ∨ values.length < t.lag)
+    (ω : K) (hω : root values.length = some ω)
+    (hprim : ((List.range values.length).map (fun i => ω ^ i)).Nodup)
+    (r : List K) (h : fmciWithFuel FK E t (fuel + 1) values offset modulus pre = some r) :
+    ∃ g : K[X], Interpolates (cosetDomain offset ω values.length) values g ∧
+      denote r = g % denote modulus := by
+  rw [fmciWithFuel] at h
+  split at h
+  · simp at h
+  · simp only [FieldOps.ofField_rootOfUnity, hω] at h
+    split at h
+    · -- Lagrange on the explicit coset, then reduce
+      obtain ⟨f, hf, h⟩ := Option.bind_eq_some_iff.1 h
+      obtain ⟨hm, rfl⟩ := reduce_eq root f modulus r h
+      rw [geom_eq] at hf
+      have hnd := cosetDomain_nodup offset ω values.length hoff hprim
+      obtain ⟨f', hf', _, hI⟩ := lagrangeInterpolateWith_spec root hE t.zf (cosetDomain offset ω values.length) values
+        hnd (by rw [length_cosetDomain]) (zerofierWith_total root (E := E) t.zf hT _)
+      have : f = f' := by
+        have e : (List.range values.length).map (fun i => offset * ω ^ i) = cosetDomain offset ω values.length := rfl
+        rw [e, hf'] at hf
+        exact (Option.some.inj hf).symm
+      subst this
+      exact ⟨denote f, hI, hE.rem _ _ hm⟩
+    · next hlag =>
+      split at h
+      · -- INTT, scale, chunk-wise reduction, reduce
+        obtain ⟨c, hc, h⟩ := Option.bind_eq_some_iff.1 h
+        split at h
+        · simp at h
+        · next hoffz =>
+          obtain ⟨hm, rfl⟩ := reduce_eq root _ modulus r h
+          have hfi : fastCosetInterpolate FK E offset values = some (scale FK c ((FK).inv offset)) := by
+            unfold fastCosetInterpolate
+            rw [hc]; simp [hoffz]
+          refine ⟨_, fastCosetInterpolate_sound root hN offset values ω hω hprim _ hfi, ?_⟩
+          rw [hE.rem _ _ hm, hpre]
+          exact mod_eq_of_dvd_sub (hE.redNtt _ _ hm)
+      · next hintt =>
+        exfalso
+        rcases hsmall with h1 | h1
+        · exact hintt h1
+        · exact hlag h1
+
+theorem fmciWith_sound_small (t : Thr) (hT : 2 ≤ t.zf) (values : List K) (offset : K) (modulus : List K) (pre : Pre K)
+    (hpre : pre.modulus = modulus) (hoff : offset ≠ 0) (hsmall : values.length ≤ t.intt ∨ values.length < t.lag)
+    (ω : K) (hω : root values.length = some ω)
+    (hprim : ((List.range values.length).map (fun i => ω ^ i)).Nodup)
+    (r : List K) (h : fmciWith FK E t values offset modulus pre = some r) :
+    ∃ g : K[X], Interpolates (cosetDomain offset ω values.length) values g ∧
+      denote r = g % denote modulus :=
+  fmciWithFuel_sound_small root hN hE t hT _ values offset modulus pre hpre hoff hsmall ω hω hprim r h
+
+/-- `fast_coset_extrapolate`: modular interpolation by the zerofier of the points, then tree evaluation -/
+theorem fastCosetExtrapolate_sound (t : Thr) (hT : 2 ≤ t.zf) (offset : K) (codeword points : List K)
+    (hoff : offset ≠ 0) (hsmall : codeword.length ≤ t.intt ∨ codeword.length < t.lag) (ω : K)
+    (hω : root codeword.length = some ω) (hprim : ((List.range codeword.length).map (fun i => ω ^ i)).Nodup)
+    (out : List K) (h : fastCosetExtrapolate FK E t offset codeword points = some out) :
+    ∃ g : K[X], Interpolates (cosetDomain offset ω codeword.length) codeword g ∧
+      out = points.map (fun x => g.eval x) := by
+  unfold fastCosetExtrapolate at h
+  obtain ⟨tree, htree, h⟩ := Option.bind_eq_some_iff.1 h
+  obtain ⟨mi, hmi, h⟩ := Option.bind_eq_some_iff.1 h
+  obtain ⟨hg, hpts⟩ := newFromDomainWith_sound root hE t.rt t.zf points tree htree
+  unfold fmci at hmi
+  obtain ⟨pre, hpre, hmi⟩ := Option.bind_eq_some_iff.1 hmi
+  obtain ⟨hpm, _⟩ := fmciPreprocess_modulus root _ _ _ _ hpre
+  obtain ⟨g, hgI, hgm⟩ := fmciWith_sound_small root hN hE t hT codeword offset _ pre hpm hoff hsmall ω hω hprim mi hmi
+  refine ⟨g, hgI, ?_⟩
+  rw [dcEval_spec root hE mi tree hg, hpts] at h
+  simp only [Option.some.injEq] at h
+  rw [← h]
+  apply List.map_congr_left
+  intro x hx
+  rw [hgm, hg.zerofier root, hpts]
+  exact eval_mod_of_root _ _ x ((eval_zpoly_eq_zero_iff points x).2 hx)
+
+/-- `coset_extrapolate`, both strategies, **for every value of the point-count cut-off** -/
+theorem cosetExtrapolateWith_sound (t : Thr) (hT : 2 ≤ t.zf) (offset : K) (codeword points : List K)
+    (hoff : offset ≠ 0) (hsmall : codeword.length ≤ t.intt ∨ codeword.length < t.lag) (ω : K)
+    (hω : root codeword.length = some ω) (hprim : ((List.range codeword.length).map (fun i => ω ^ i)).Nodup)
+    (out : List K) (h : cosetExtrapolateWith FK E t offset codeword points = some out) :
+    ∃ g : K[X], Interpolates (cosetDomain offset ω codeword.length) codeword g ∧
+      out = points.map (fun x => g.eval x) := by
+  unfold cosetExtrapolateWith at h
+  split at h
+  · exact fastCosetExtrapolate_sound root hN hE t hT offset codeword points hoff hsmall ω hω hprim out h
+  · exact naiveCosetExtrapolate_sound root hN hE t offset codeword points ω hω hprim out h
+
+omit hN hE in
+theorem length_of_mem_codewordSlices {α : Type} (n : Nat) (cws cw : List α) (h : cw ∈ codewordSlices n cws) :
+    cw.length = n := by
+  unfold codewordSlices at h
+  obtain ⟨i, hi, rfl⟩ := List.mem_map.1 h
+  have hi' : i < cws.length / n := List.mem_range.1 hi
+  have h1 : (i + 1) * n ≤ cws.length := le_trans (Nat.mul_le_mul_right n hi') (Nat.div_mul_le_self _ _)
+  simp only [List.length_take, List.length_drop]
+  have : i * n + n ≤ cws.length := by rw [← Nat.succ_mul]; exact h1
+  omega
+
+/-- what one codeword contributes to the batch result -/
+def SliceOK (offset ω : K) (n : Nat) (points : List K) (cw part : List K) : Prop :=
+  ∃ g : K[X], Interpolates (cosetDomain offset ω n) cw g ∧ part = points.map (fun x => g.eval x)
+
+omit hN hE in
+theorem mapM_option_forall₂_mem {α β : Type} {f : α → Option β} {P : α → β → Prop} :
+    ∀ (l : List α) (bs : List β), (∀ a ∈ l, ∀ b, f a = some b → P a b) → l.mapM f = some bs →
+      List.Forall₂ P l bs := by
+  intro l
+  induction l with
+  | nil => intro bs _ hbs; simp at hbs; subst hbs; exact List.Forall₂.nil
+  | cons a l ih =>
+    intro bs h hbs
+    rw [List.mapM_cons] at hbs
+    obtain ⟨b, hb, hbs⟩ := Option.bind_eq_some_iff.1 hbs
+    obtain ⟨bs', hbs', hbs⟩ := Option.bind_eq_some_iff.1 hbs
+    simp only [Option.pure_def, Option.some.injEq] at hbs
+    subst hbs
+    exact List.Forall₂.cons (h a (by simp) b hb) (ih bs' (fun x hx => h x (by simp [hx])) hbs')
+
+/-- `batch_coset_extrapolate` / `par_batch_coset_extrapolate`: every codeword of the batch is extrapolated as by
+    interpolate-then-evaluate, results concatenated in order (Lagrange and INTT arms of the fast strategy) -/
+theorem batchCosetExtrapolateWith_sound (t : Thr) (hT : 2 ≤ t.zf) (offset : K) (n : Nat) (codewords points : List K)
+    (hoff : offset ≠ 0) (hsmall : n ≤ t.intt ∨ n < t.lag) (ω : K)
+    (hω : root n = some ω) (hprim : ((List.range n).map (fun i => ω ^ i)).Nodup)
+    (out : List K) (h : batchCosetExtrapolateWith FK E t offset n codewords points = some out) :
+    ∃ parts, List.Forall₂ (SliceOK offset ω n points) (codewordSlices n codewords) parts ∧ out = parts.flatten := by
+  unfold batchCosetExtrapolateWith at h
+  split at h
+  · obtain ⟨tree, htree, h⟩ := Option.bind_eq_some_iff.1 h
+    obtain ⟨pre, hpre, h⟩ := Option.bind_eq_some_iff.1 h
+    obtain ⟨parts, hparts, h⟩ := Option.bind_eq_some_iff.1 h
+    simp only [Option.pure_def, Option.some.injEq] at h
+    obtain ⟨hg, hpts⟩ := newFromDomainWith_sound root hE t.rt t.zf points tree htree
+    obtain ⟨hpm, _⟩ := fmciPreprocess_modulus root _ _ _ _ hpre
+    refine ⟨parts, ?_, h.symm⟩
+    apply mapM_option_forall₂_mem _ _ _ hparts
+    intro cw hcw part hpart
+    have hlen := length_of_mem_codewordSlices n codewords cw hcw
+    obtain ⟨mi, hmi, hpart⟩ := Option.bind_eq_some_iff.1 hpart
+    obtain ⟨g, hgI, hgm⟩ := fmciWith_sound_small root hN hE t hT cw offset _ pre hpm hoff (by rw [hlen]; exact hsmall)
+      ω (by rw [hlen]; exact hω) (by rw [hlen]; exact hprim) mi hmi
+    rw [hlen] at hgI
+    refine ⟨g, hgI, ?_⟩
+    rw [dcEval_spec root hE mi tree hg, hpts] at hpart
+    simp only [Option.some.injEq] at hpart
+    rw [← hpart]
+    apply List.map_congr_left
+    intro x hx
+    rw [hgm, hg.zerofier root, hpts]
+    exact eval_mod_of_root _ _ x ((eval_zpoly_eq_zero_iff points x).2 hx)
+  · obtain ⟨tree, htree, h⟩ := Option.bind_eq_some_iff.1 h
+    obtain ⟨hg, hpts⟩ := newFromDomainWith_sound root hE t.rt t.zf points tree htree
+    simp only at h
+    split at h
+    · simp at h
+    · next hmz =>
+      have hm : denote (tree.zerofier FK) ≠ 0 := fun h0 => hmz ((isZero_iff root _).2 h0)
+      split at h
+      · simp at h
+      · obtain ⟨parts, hparts, h⟩ := Option.bind_eq_some_iff.1 h
+        simp only [Option.pure_def, Option.some.injEq] at h
+        refine ⟨parts, ?_, h.symm⟩
+        apply mapM_option_forall₂_mem _ _ _ hparts
+        intro cw hcw part hpart
+        have hlen := length_of_mem_codewordSlices n codewords cw hcw
+        obtain ⟨c, hc, hpart⟩ := Option.bind_eq_some_iff.1 hpart
+        split at hpart
+        · simp at hpart
+        · next hoffz =>
+          have hfi : fastCosetInterpolate FK E offset cw = some (scale FK c ((FK).inv offset)) := by
+            unfold fastCosetInterpolate
+            rw [hc]; simp [hoffz]
+          have hgI := fastCosetInterpolate_sound root hN offset cw ω (by rw [hlen]; exact hω)
+            (by rw [hlen]; exact hprim) _ hfi
+          rw [hlen] at hgI
+          refine ⟨_, hgI, ?_⟩
+          rw [dcEval_spec root hE _ tree hg, hpts] at hpart
+          simp only [Option.some.injEq] at hpart
+          rw [← hpart]
+          apply List.map_congr_left
+          intro x hx
+          obtain ⟨q, hq⟩ := hE.redNtt (scale FK c ((FK).inv offset)) (tree.zerofier FK) hm
+          have hroot : (denote (tree.zerofier FK)).eval x = 0 := by
+            rw [hg.zerofier root, hpts]; exact (eval_zpoly_eq_zero_iff points x).2 hx
+          have := congrArg (eval x) hq
+          simp only [eval_sub, eval_mul, hroot, zero_mul] at this
+          exact sub_eq_zero.1 this
+
+end coset
+
+
+/-! ### the NTT contract is satisfiable -/
+section idealNtt
+open Classical
+
+/-- `ntt`/`intt` defined by their specification -/
+noncomputable def Ext.idealNtt : Ext K :=
+  { (Ext.ideal : Ext K) with
+    ntt := fun xs => match root xs.length with
+      | some ω => (List.range xs.length).map (fun i => (denote xs).eval (ω ^ i))
+      | none => xs
+    intt := fun vs => match root vs.length with
+      | some ω =>
+        if h : ∃ f : K[X], Interpolates ((List.range vs.length).map (fun i => ω ^ i)) vs f
+        then ofPoly (Classical.choose h) else vs
+      | none => vs }
+
+theorem Ext.idealNtt_lawful : (Ext.idealNtt root : Ext K).Lawful where
+  mul _ _ := denote_ofPoly _
+  parBatchMul _ _ := denote_ofPoly _
+  rem p m h := (Ext.ideal_lawful (K := K)).rem p m h
+  redNtt p m h := (Ext.ideal_lawful (K := K)).redNtt p m h
+
+theorem Ext.idealNtt_lawfulNtt : Ext.LawfulNtt root (Ext.idealNtt root : Ext K) where
+  ntt xs ω hω := by
+    show (match root xs.length with
+      | some ω => (List.range xs.length).map (fun i => (denote xs).eval (ω ^ i))
+      | none => xs) = _
+    rw [hω]
+  intt vs ω hω hprim := by
+    have hex : ∃ f : K[X], Interpolates ((List.range vs.length).map (fun i => ω ^ i)) vs f := by
+      obtain ⟨f, _, _, hf⟩ := lagrangeInterpolateWith_spec root (Ext.ideal_lawful (K := K)) 2
+        ((List.range vs.length).map (fun i => ω ^ i)) vs hprim (by simp)
+        (zerofierWith_total root (E := Ext.ideal) 2 (Nat.le_refl 2) _)
+      exact ⟨_, hf⟩
+    show Interpolates _ vs (denote (match root vs.length with
+      | some ω =>
+        if h : ∃ f : K[X], Interpolates ((List.range vs.length).map (fun i => ω ^ i)) vs f
+        then ofPoly (Classical.choose h) else vs
+      | none => vs))
+    rw [hω]
+    simp only [dif_pos hex, denote_ofPoly]
+    exact Classical.choose_spec hex
+
+end idealNtt
 
 end TF.Model.PolyI
